@@ -288,10 +288,11 @@ class EsDevice:
 class Rig:
     """An inverter object wired to a device model on a KLoop."""
 
-    def __init__(self, family, dev, transport='udp', T=1, R=0, ka=False, ctx=None, world=None):
+    def __init__(self, family, dev, transport='udp', T=1, R=0, ka=False, ctx=None, world=None, keep_world=False):
         from . import world as W
         from .kernel import KLoop
-        W.reset()
+        if not keep_world:      # keep_world: a further object in the same process state (neighbours, pairs)
+            W.reset()
         self.dev = dev
         self.loop = KLoop(dev, ctx=ctx)
         port = 502 if transport == 'tcp' else 8899
